@@ -59,6 +59,21 @@ pub broadcast proof fn lemma_sub_sub(s: Seq<u8>, a: int, b: int)
     assert(s.subrange(a, s.len() as int).subrange(b, s.len() - a) =~= s.subrange(a + b, s.len() as int));
 }
 
+pub broadcast proof fn lemma_suffix_after2(part: Seq<u8>, whole: Seq<u8>)
+    requires whole.len() >= 2, #[trigger] is_suffix(part, whole.subrange(2, whole.len() as int)),
+    ensures is_suffix(part, whole),
+{
+    let rest = whole.subrange(2, whole.len() as int);
+    assert(part =~= whole.subrange(whole.len() - part.len(), whole.len() as int));
+}
+
+pub proof fn lemma_sub_sub2(s: Seq<u8>, a: int, c: int, x: int, y: int)
+    requires 0 <= a <= c <= s.len(), 0 <= x <= y <= c - a,
+    ensures s.subrange(a, c).subrange(x, y) == s.subrange(a + x, a + y),
+{
+    assert(s.subrange(a, c).subrange(x, y) =~= s.subrange(a + x, a + y));
+}
+
 /// offset tracking step used by the `track:` hints (see tools/extract.py)
 pub proof fn lemma_track(orig: Seq<u8>, off: int, p: Seq<u8>, n: Seq<u8>)
     requires
